@@ -75,13 +75,31 @@ PLANS["C01"] = generic(
 
 
 def setup():
-    """Build everything the quick checks need (offline)."""
+    """Build everything the quick checks need (offline), so the checks themselves only re-link what changed."""
     t0 = time.time()
     with o.Lock():
         o.sync_snapshot()
         for b in ("chk", "rel"):
             path, secs = o.cargo_build(b)
-            o.log("built %s in %.1fs" % (b, secs))
+            o.log("built driver/%s in %.1fs" % (b, secs))
+        path, secs = o.cargo_build("chk", "jpbuild", "jp")
+        o.log("built jp in %.1fs" % secs)
+        with ThreadPoolExecutor(max_workers=5) as ex:
+            futs = {c: ex.submit(o.cargo_build, c, "matrix", None) for c in ["n-default", "n-sync", "n-spec", "n-syncspec", "chk"]}
+            for c, f in futs.items():
+                path, secs = f.result()
+                o.log("built matrix/%s in %.1fs" % (c, secs))
+        for pkg in ("sendsync", "conc"):
+            r = _cargo(["build", "--offline", "--profile", "chk", "-p", pkg], "target-sync")
+            if r.returncode != 0:
+                raise o.HarnessError("%s failed to build:\n%s" % (pkg, r.stderr[-2000:]))
+        o.log("built sendsync + conc (sync)")
+        r = _cargo(["build", "--offline", "-Zbuild-std", "--target", "x86_64-unknown-linux-gnu", "-p", "conc", "--profile", "chk"], "target-tsan",
+                   toolchain="nightly", rustflags="-Zsanitizer=thread")
+        o.log("ThreadSanitizer build: %s" % ("ok" if r.returncode == 0 else "FAILED (C16 will report the TSan observer as inconclusive)"))
+        r = _cargo(["miri", "run", "--offline", "-p", "conc", "--", "small", "1", "1", "1"], "target-miri", toolchain="nightly",
+                   extra_env={"MIRIFLAGS": "-Zmiri-disable-isolation"}, timeout=3000)
+        o.log("Miri warm-up: %s" % ("ok" if r.returncode == 0 else "FAILED (C16 will report the Miri observer as inconclusive)"))
     o.log("setup done in %.1fs" % (time.time() - t0))
     return 0
 
@@ -867,3 +885,164 @@ def c16_plan(pid, tier, seed, t0):
 
 
 PLANS["C16"] = c16_plan
+
+
+# ---------------------------------------------------------------------------
+# C17: feature matrix
+
+
+def c17_plan(pid, tier, seed, t0):
+    configs = ["n-default", "n-sync", "n-spec", "n-syncspec", "chk"]
+    rundir = os.path.join(o.WORK, "run", "%d-c17" % os.getpid())
+    os.makedirs(rundir, exist_ok=True)
+    merged = o.merge([])
+    staged = {}
+    with o.Lock():
+        o.sync_snapshot()
+        with ThreadPoolExecutor(max_workers=5) as ex:
+            futs = {c: ex.submit(o.cargo_build, c, "matrix", None) for c in configs}
+            for c, f in futs.items():
+                path, secs = f.result()
+                staged[c] = o.stage_binary(path, rundir, "matrix-" + c)
+    n = 25_000 if tier == "quick" else 1_000_000
+    logs = {}
+    procs = {c: subprocess.Popen([staged[c], str(seed), str(n), os.path.join(rundir, c + ".log")], stdout=subprocess.PIPE, stderr=subprocess.PIPE, env=o.ENV)
+             for c in configs}
+    for c, p in procs.items():
+        so, se = p.communicate()
+        if p.returncode != 0:
+            merged["violations"].append({"signature": "C17/driver-died/%s" % c, "witness": {"config": c, "exit": p.returncode, "stderr": se.decode("utf-8", "replace")[-800:]}})
+            merged["violations_total"] += 1
+            continue
+        with open(os.path.join(rundir, c + ".log"), encoding="utf-8", errors="replace") as f:
+            logs[c] = f.read().split("\n")
+    ref = logs.get("n-default")
+    if ref is None:
+        raise o.HarnessError("reference configuration did not run")
+    lines = 0
+    for c, lg in logs.items():
+        lines += len(lg)
+        if c == "n-default":
+            continue
+        if lg != ref:
+            diffs = []
+            for i, (a, b) in enumerate(zip(ref, lg)):
+                if a != b:
+                    diffs.append({"line": i, "default": a[:300], c: b[:300]})
+                    if len(diffs) >= 3:
+                        break
+            if len(ref) != len(lg):
+                diffs.append({"length_default": len(ref), "length_" + c: len(lg)})
+            merged["violations"].append({"signature": "C17/outcome-differs/%s-vs-default" % c, "witness": {"config": c, "first_differences": diffs, "seed": seed, "n": n}})
+            merged["violations_total"] += 1
+    # inside each build: conversions equal serde_json's image; the six spellings of a document input agree
+    conv = 0
+    groups = 0
+    kinds = {}
+    samples = []
+    for c, lg in logs.items():
+        cur = None
+        outs = set()
+        for ln in lg:
+            if not ln:
+                continue
+            parts = ln.split("\t")
+            key = parts[0]
+            if "CONVERSION-MISMATCH" in ln:
+                merged["violations"].append({"signature": "C17/specialised-conversion-differs-from-serde", "witness": {"config": c, "line": ln[:400]}})
+                merged["violations_total"] += 1
+            if ".conv." in key:
+                conv += 1
+                continue
+            cid, _, kind = key.partition(".")
+            if c == "n-default":
+                kinds[kind] = kinds.get(kind, 0) + 1
+                merged["distinct"].add(hash(ln) & 0xFFFFFFFFFFFF)
+                if len(samples) < 8 and kind in ("value", "u64", "f32", "str", "unit") and not any(s.get("kind") == kind for s in samples):
+                    samples.append({"kind": kind, "log_line": ln[:300]})
+            if kind in ("value", "value_ref", "variable", "variable_ref", "rcvar", "rcvar_ref"):
+                if cid != cur:
+                    if cur is not None and len(outs) > 1:
+                        merged["violations"].append({"signature": "C17/input-representation-changes-outcome", "witness": {"config": c, "case": cur, "outcomes": sorted(outs)[:4]}})
+                        merged["violations_total"] += 1
+                    cur, outs = cid, set()
+                    groups += 1
+                outs.add(parts[-1])
+    merged["evaluations"] = lines
+    merged["samples"] = samples
+    merged["observed"] = {"log_lines_compared_per_configuration": len(ref), "configurations": len(logs), "conversion_checks": conv, "document_input_groups": groups}
+    for k, v in kinds.items():
+        merged["observed"]["cases/%s" % k] = v
+    cfg = {
+        "rule": "ONE deterministic program (harness/matrix) is built five ways — nightly {default, sync, specialized, sync+specialized} and stable default — "
+        "and run with the same seed; its outcome logs (one line per case: result as JSON, or error class+kind+offset+line+column) must be identical line "
+        "for line. Cases: value-guided random expressions (with calls) x documents passed as each of Value, &Value, Variable, &Variable, Rcvar, &Rcvar "
+        "(the six must also agree with each other inside a build); 20 scalar expressions x inputs of every specially-handled scalar type (i8..i64, "
+        "u8..u64, isize, usize at MIN/MAX/0/+-1/random; finite f32/f64 incl. -0.0, subnormals, 2^53+1; (), bool, String, &str incl. astral); inside "
+        "each build x.to_jmespath() must equal serde_json's image of x. Non-trivial / distinct = distinct log lines of the reference configuration.",
+        "min_evaluations": 100_000,
+        "assumptions": COMMON_ASSUMPTIONS + ["non-finite floats are outside 'JSON-representable input'", "the toolchain is held constant across the four feature sets (nightly); stable default is compared too"],
+    }
+    return o.conclude(pid, tier, seed, merged, cfg, t0, {"configurations": configs})
+
+
+PLANS["C17"] = c17_plan
+
+
+# ---------------------------------------------------------------------------
+# C18: the jp command-line tool
+
+
+def c18_plan(pid, tier, seed, t0):
+    rundir, staged = o.prepare(["chk", ("chk", "jpbuild", "jp")])
+    jp = staged["jpbuild"]
+    n = 3_200 if tier == "quick" else 200_000
+    per = (n + o.NCPU - 1) // o.NCPU
+    procs = []
+    for s in range(o.NCPU):
+        out = os.path.join(rundir, "c18.%d.json" % s)
+        recs = os.path.join(rundir, "c18.%d.records" % s)
+        cmd = [staged["chk"], "c18gen", "--seed", str(seed), "--n", str(per), "--shard", "%d/%d" % (s, o.NCPU), "--out", out, "--records", recs]
+        procs.append((s, subprocess.Popen(cmd, stdout=subprocess.PIPE, stderr=subprocess.PIPE, env=o.ENV), out, recs))
+    reports, recfiles = [], []
+    for s, p, out, recs in procs:
+        so, se = p.communicate()
+        if p.returncode != 0 or not os.path.exists(out):
+            reports.append({"died": "exit %s" % p.returncode, "shard": s, "stderr": se.decode("utf-8", "replace")[-1500:]})
+            continue
+        reports.append(json.load(open(out)))
+        recfiles.append(recs)
+    merged = o.merge(reports)
+    merged["distinct"] = set()
+    # the executor runs 16 invocations at a time itself
+    r = subprocess.run([sys.executable, os.path.join(o.VERIF, "py", "run_cli.py"), jp] + recfiles, capture_output=True, text=True, env=o.ENV)
+    if r.returncode != 0:
+        raise o.HarnessError("run_cli.py failed: %s" % r.stderr[-800:])
+    res = json.loads(r.stdout)
+    merged["violations"] += res["violations"]
+    merged["violations_total"] += len(res["violations"])
+    merged["inconclusive"] += res["inconclusive"]
+    merged["samples"] = res["samples"]
+    for k, v in res["stats"].items():
+        merged["observed"]["jp/" + k] = v
+    # distinct = one per invocation that was executed and judged
+    judged = sum(v for k, v in res["stats"].items() if k.startswith("success/") or k.startswith("failure/"))
+    merged["distinct"].update(range(judged))
+    merged["evaluations"] = judged + res["stats"].get("strace/ast-reads-no-input", 0)
+    cfg = {
+        "rule": "the repository's jmespath-cli/src/main.rs is compiled byte for byte against the library snapshot (out-of-tree manifest, because the CLI's own "
+        "lock file pins an uncached crate) and executed as a subprocess: expressions (fixed set incl. every JSON result type, strings with quotes/newlines/"
+        "astral characters, u64 extremes, runtime failures, syntax errors, top-level expression references; generated trees; one-token mutants; character "
+        "soup) x inputs (valid, truncated, empty, non-UTF-8, BOM, 130-deep, trailing comma, scalars) x input channel (stdin, -f, missing -f) x expression "
+        "channel (argv, -e, -e with trailing newline / non-UTF-8 / empty / missing) x -u x --ast. Oracle: the library called in-process by the harness on the "
+        "same expression and input text: success => exit 0, stdout == pretty JSON + newline (raw string + newline under -u for string results), stderr "
+        "empty; any failure => exit != 0, stdout empty, stderr non-empty and containing the library's error text; never exit 101 / 'panicked at' / a "
+        "signal. --ast: stdout == format!(\"{:#?}\\n\", ast), and strace shows no read on fd 0 and no openat of the -f path. Non-trivial / distinct = "
+        "judged invocations (each has a distinct (argv, stdin, files) by construction of the generator).",
+        "min_evaluations": 2_000,
+        "assumptions": COMMON_ASSUMPTIONS + ["behaviour with a closed or full stdout is outside the statement's quantifier; it is probed and reported under out_of_scope_observations only"],
+    }
+    return o.conclude(pid, tier, seed, merged, cfg, t0, {"out_of_scope_observations": res.get("out_of_scope_observations", {})})
+
+
+PLANS["C18"] = c18_plan
